@@ -395,7 +395,7 @@ fn explore_jobs(tier: Tier) -> Vec<Job> {
     ];
     let set_input: Vec<String> = vec!["b", "a", "b", "c", "ab"].into_iter().map(String::from).collect();
     let cfgs: Vec<(u32, u32, u32)> = if thorough { vec![(2, 2, 2), (3, 2, 1), (2, 3, 2), (5, 2, 2), (2, 2, 3), (1, 3, 2), (1, 2, 2), (1, 4, 3), (2, 3, 3)] } else { vec![(2, 2, 2), (3, 2, 1), (2, 3, 2), (5, 2, 2)] };
-    let cap = if thorough { 6000 } else { 200 };
+    let cap = if thorough { 1500 } else { 200 };
     for (batch, fd, threads) in cfgs {
         let modes: Vec<&str> = if thorough { vec!["sum", "max", "min"] } else if (batch, fd, threads) == (2, 2, 2) { vec!["sum", "min"] } else { vec!["min", "max"] };
         for mode in modes {
@@ -455,6 +455,12 @@ fn pin_to_core(core: usize) {
 
 fn child_main(core: usize, spec: &str) {
     pin_to_core(core);
+    if std::env::var("VERIF_NICE").is_ok() {
+        // long thorough explorations must not starve the rest of the machine
+        unsafe {
+            libc::nice(10);
+        }
+    }
     ev::install_quiet_panic_hook();
     std::env::set_var("TMPDIR", workdir());
     std::fs::create_dir_all(workdir()).unwrap();
@@ -568,7 +574,12 @@ fn main() {
     };
     let next = std::sync::atomic::AtomicUsize::new(0);
     let results: Mutex<Vec<(usize, Result<Vec<Value>, String>)>> = Mutex::new(vec![]);
-    let nthreads = std::thread::available_parallelism().map(|n| n.get()).unwrap_or(4);
+    let ncores = std::thread::available_parallelism().map(|n| n.get()).unwrap_or(4);
+    // thorough: leave a quarter of the cores to the rest of the machine
+    let nthreads = if tier == Tier::Thorough { (ncores * 3 / 4).max(1) } else { ncores };
+    if tier == Tier::Thorough {
+        std::env::set_var("VERIF_NICE", "1");
+    }
     std::thread::scope(|s| {
         for core in 0..nthreads {
             let (next, chunks, results) = (&next, &chunks, &results);
